@@ -18,7 +18,7 @@ from hypothesis import strategies as st
 from . import core, s4u
 
 DRIVER = "s4u_wf"
-EXT_VERSION = "wf-ext-v2"
+EXT_VERSION = "wf-ext-v3"
 DEFAULT_CAP = 500 * 1024 ** 3           # FileSystemDiskExt::size_ when the disk has no "size" property
 M64 = 1 << 64
 NAMES = ["f0", "f1", "dir/f2", "f3.dat", "dir/sub/f4"]
@@ -400,7 +400,7 @@ def _sig(what, cls, keep_moved=True):
     return "%s-wrong-after:%s" % (what, base)
 
 
-def check(case, log, oc, labels):
+def check(case, log, oc, labels, partial=False):
     """Replays the history through the model and compares every observation.  Accounting (`used`) is compared step by step as a
     DIFFERENCE (so that one accounting defect is reported once, with the class of the operation that introduced it, and the rest of the
     history is still checked); the absolute value is checked on the initial state.  A structural divergence (file size, position,
@@ -416,6 +416,8 @@ def check(case, log, oc, labels):
     steps = 0
     for rec in recs:
         op = rec["op"]
+        if partial and rec.get("n_ret") is None:
+            return steps
         if "exc" in rec or rec.get("n_ret") is None:
             oc.bad("operation-failed:" + op[0], "operation %r did not return normally: %r" % (op, rec.get("exc")))
             return
@@ -483,6 +485,6 @@ def check(case, log, oc, labels):
                            "%s: used size of %s went %d -> %d (%+d) while the total size of its files went %d -> %d (%+d)"
                            % (where, dn, signed(prev_used[dn]), signed(od["used"]), delta_obs, before[dn], m.used(dn), delta_exp))
         prev_used = {dn: disks[dn]["used"] for dn in m.disks}
-    if len(recs) != len(case["ops"]):
+    if len(recs) != len(case["ops"]) and not partial:
         oc.bad("history-incomplete", "%d of %d operations were executed" % (len(recs), len(case["ops"])))
     return steps
